@@ -165,6 +165,30 @@ def do_case(c):
         except BaseException as ex:
             return {'error': err(ex)['error'], 'oracle': orc}
         return {'store': [[k] + pyval(v) for k, v in tr.tags.items()], 'oracle': orc}
+    if f == 'rawchain':           # raw header -> TaggedRecord -> asFastq -> header -> AlignedSegment -> digest (no strategy)
+        x = ctx()
+        rec = FastqRecord(c['header'], 'ACGT', '+', 'IIII')
+        kw = {'indexFileParser': x['ip'], 'indexFileAlias': x['alias']} if c.get('parser') else {}
+        orc = oracle(c['header']) if c.get('parser') else None
+        try:
+            tr = B.TaggedRecord(B.TagDefinitions, rawRecord=rec, library=c.get('library'), **kw)
+        except BaseException as ex:
+            return {'error': err(ex)['error'], 'stage': 'record', 'oracle': orc}
+        store = [[k] + pyval(v) for k, v in tr.tags.items()]
+        try:
+            fq = str(tr)
+        except BaseException as ex:
+            return {'error': err(ex)['error'], 'stage': 'header', 'oracle': orc, 'store': store}
+        name = fq.split('\n')[0][1:]
+        try:
+            a = new_read(name)
+        except BaseException as ex:      # pysam itself refuses the name: outside the model
+            return {'skip': err(ex)['error'], 'stage': 'pysam', 'oracle': orc, 'store': store, 'header': name}
+        try:
+            QueryNameFlagger().digest([a])
+        except BaseException as ex:
+            return {'error': err(ex)['error'], 'stage': 'digest', 'oracle': orc, 'store': store, 'header': name}
+        return {'header': name, 'store': store, 'read': {'name': a.query_name, 'tags': read_tags(a)}, 'oracle': orc}
     if f == 'digest':             # query name -> QueryNameFlagger().digest -> name, tags
         reads = [None if r is None else new_read(r[0], r[1]) for r in c['reads']]
         q = QueryNameFlagger()
